@@ -1,6 +1,7 @@
 """C02 — waiting on an event returns after its whole cascade, with exactly its errors."""
 import json
 import os
+import re
 
 import checklib
 
@@ -13,53 +14,71 @@ def decode(p):
         return p
 
 
-RULE = ("a case = 1..4 cascade plans run concurrently on one real engine.Processor (workers 1..16, failOnFirstError on/off): "
-        "event trees with fan-out <=4, depth <=4, children added with NewChildMonitor+AddEvent from inside rule actions, "
-        "skipped (non-triggering) and zero-rule child events, failing rules at any position, AddEventAndWait or AddEvent+finish "
-        "handler, an error observer calling AllErrors(); seeded yields/parks at the hook points and the directed schedule "
-        "'hold a failing task between SetErrors and Finish until another task's error observer has called AllErrors'. "
-        "Compared with the model's prediction: wait returned, number of action completion stamps later than the return, "
-        "finish handler count, IsFinished of every monitor handed to AddEvent, AllErrors() as a sorted list of "
-        "(event node, rule, error text class), entries of another cascade, nil entries seen by the error observer; a process "
-        "death is the result CRASH. Non-trivial = some cascade has >=3 events and a failing rule.")
+RULE = ("a case = 1..4 cascade plans run concurrently on one real engine.Processor (workers 1..16, failOnFirstError on/off), through the "
+        "Go API or (20%) through ECAL sinks: event trees with fan-out <=4, depth <=4; children added with NewChildMonitor(prio)+AddEvent "
+        "from inside rule actions; skipped and zero-rule child events; failing rules at any position; blocking actions; nested waits "
+        "(AddEventAndWait / addEventAndWait inside an action, workers >= nested waits + 1); detached events (nil monitor, new root "
+        "monitor, ECAL scope argument, ECAL addEvent inside a for loop / a user function of the sink); ECAL sinks ending in return; "
+        "AddEventAndWait or AddEvent+finish handler, with/without finish handler and error observer (which polls AllErrors()). "
+        "Schedule modes: random yields/sleeps at the hook points; directed: hold a failing task between SetErrors and Finish until "
+        "another task's error observer called AllErrors; hold the adder after pool.AddTask until the cascade posted; hold a finisher "
+        "inside the root lock with one monitor outstanding, the zero-seer before PostEvent, a non-last finisher after Unlock; PCT "
+        "priorities. Tiny plans (<=3 events, <=2 workers) are explored exhaustively on the transition system and run 24x each. "
+        "Compared with the model per root monitor (unit), sampled at the unit's own return: wait returned, action completion stamps "
+        "later than the return, finish handler count, IsFinished of every monitor handed to AddEvent, AllErrors() as a sorted list of "
+        "(event node, rule, error class), entries of another cascade, nil entries seen by the error observer, number of completed "
+        "actions of detached cascades, units that must not start; a process death is CRASH, a wait that does not return is a hang. "
+        "Non-trivial = some cascade has >=3 events and a failing rule.")
 
 SPEC = dict(
     lean_modules=["Ecal.Props.C02"],
     shards=12,
     rule=RULE,
     trusted_base=[
-        "the transition system lean/Ecal/Model/Cascade.lean is sequentially consistent; the Go memory model is not modelled (thorough tier runs the harness with -race in addition)",
-        "atomicity of the model's events: each is one critical section of the root monitor's lock / the queue's lock / the pump's lock in the Go code (tied by replaying hook-recorded traces, not proved from the source text)",
-        "hook call sites (hooks/C02.patch, add-only verifhook.At lines) report the arguments they are given",
+        "the transition system lean/Ecal/Model/Cascade.lean is sequentially consistent; the Go memory model is not modelled (monitorBase.finished / Err / RootMonitor.finished are written and read without a common lock; the thorough tier runs the harness with -race in addition)",
+        "granularity of the model's events: tied to the Go text by the source facts of lean/Ecal/Gen/C02.lean (go/ast extractor go/cmd/harness/c02tool.go, regenerated on every run: zero test inside the critical section, post outside it, counter writes under the lock, error attached before it is registered, Finish after ProcessEvent, HandleError order, observers registered before the hand-over, AllErrors calls no asserting accessor, PostEvent filters by source, monitor ids allocated in a critical section) and by replaying hook-recorded traces; the extractor itself is trusted",
+        "Finish() sets monitorBase.finished before descendantFinished decrements the counter; the model has one event (unfinished_counts is transiently false in the safe direction in Go)",
+        "post / observerRuns are separate model events; Go runs the callbacks synchronously on the posting goroutine in registration order (the replay enforces that order)",
+        "hook call sites (hooks/C02.patch, hooks/C02b.patch: add-only verifhook.At lines) report the arguments they are given",
         "the rules a triggering event executes (C01) and their order (C10) are inputs of the model's addEvent",
     ],
     assumptions=[
-        "NewChildMonitor on a monitor is only called by an action executing under that monitor (what the ECAL addEvent builtin and the harness do); a monitor reference leaked to a goroutine outliving the action is outside the model",
-        "the processor is running while the cascade is in flight (AddEvent on a stopping pool returns an error and leaves the monitor unfinished)",
-        "'the wait does return' is proved as: an engine step is enabled whenever work is outstanding and a worker is free, and every engine step decreases a measure; weak fairness of the scheduler, terminating actions and pool liveness (C09) are assumed",
-        "a rule action calling AddEventAndWait occupies its worker while it waits: nested waits need a free worker each",
+        "NewChildMonitor on a monitor is only called by an action executing under that monitor (what the ECAL addEvent builtin and the harness do); the method is public and unguarded in Go: a monitor reference used after its action returned is outside the model (the model's newChild is simply not enabled then; not exercised against the Go code)",
+        "the processor is running while the cascade is in flight: AddEvent on a stopping/stopped pool returns an error, the child monitor created for it is never finished and an enclosing wait never returns (func_provider.go addEvent path) — excluded, recorded as a limitation",
+        "'the wait does return' is proved as wait_returns_partial: every maximal run of engine steps from a state without fresh monitors has at most workLeft steps and ends with the waiter released and the handler run; weak fairness of the Go scheduler, terminating actions and pool liveness (C09) are assumed",
+        "a rule action calling AddEventAndWait occupies its worker while it waits: with workers <= simultaneous nested waits the processor deadlocks by design (not generated; limitation)",
+        "ECAL: addEvent executed inside a for loop, inside a user function called by the sink, or inside a call argument runs with a FRESH instance state (rt_statements.go loopRuntime.Eval, rt_func.go, rt_identifier.go) and therefore starts a NEW root monitor: such events are not 'added under the monitor' of the sink's event; an enclosing addEventAndWait neither waits for them nor reports their errors (confirmed by the harness, modelled as detached cascades). The property as stated does not cover them; a user reading 'use addEvent for event cascades' may expect otherwise",
     ],
     decode=decode,
 )
 
 META = dict(
     technique=("Lean 4 invariant proof over an executable transition system of the cascade protocol (monitors, counter, error map, "
-               "queue, observer table, waiter) + correspondence: generated cascade plans run on the real engine.Processor under "
-               "seeded/directed schedules, observables compared with the model, hook-recorded traces replayed on the transition system"),
+               "queue, observer table, waiter), a shared-structure system (one observer table / pending-callback list / queue map) "
+               "with a projection theorem, source facts regenerated with go/ast and decided in Lean, exhaustive exploration of tiny "
+               "plans on the transition system, and a correspondence: generated cascade plans run on the real engine.Processor (Go API "
+               "and ECAL sinks) under random, PCT and directed schedules, observables compared with the model, hook-recorded global "
+               "traces replayed on the single-cascade and on the shared transition system"),
     level_text=("Proof (all cascade shapes, worker counts, interleavings of the sequentially consistent model): unfinished = number of "
-                "created unfinished monitors; no child after zero; finished message posted at most once and exactly when all monitors "
-                "are finished; the wait is released only after every action returned and every monitor finished; at that time AllErrors "
-                "= exactly the failed (event, rule) entries; AllErrors never meets an unfinished-monitor assertion or a nil entry; no "
-                "stuck state while a worker is free + decreasing measure (return under weak fairness). Model tied to the Go code by "
+                "created unfinished monitors; finished message posted at most once and exactly when all monitors are finished; finish "
+                "handler observer registered before the root's task can run, handler runs exactly once (negative witness for the late "
+                "registration); the wait is released only after every action returned and every monitor finished; at that time (and "
+                "when the handler runs) AllErrors = exactly the failed (event, rule) entries, failed being the history of failing "
+                "ruleReturns; AllErrors never yields a nil entry; progress while a worker is free, engine runs bounded by a measure, "
+                "quiescent => released and handler ran (wait_returns_partial; fairness assumed); conc_refines: with ONE observer table, "
+                "pending list and queue map every step projects to a step of the cascade's own system and leaves other roots' views "
+                "alone (negative witness: PostEvent without the source filter). Model tied to the Go code by 13 source facts, "
                 "differential runs and trace replay on every run."),
-    level_note=("Trusted: Lean kernel + propext/Classical.choice/Quot.sound; the event granularity of the model (validated by trace "
-                "replay, not derived from the Go source); Go memory model not modelled (-race run in the thorough tier); liveness "
-                "only under the stated fairness assumption; rule selection/order per event are inputs (C01/C10)."),
+    level_note=("Trusted: Lean kernel + propext/Classical.choice/Quot.sound; the go/ast fact extractor; the hook call sites; Go memory "
+                "model not modelled (-race run in the thorough tier); liveness only under the stated fairness assumption (full statement "
+                "in the comment at wait_returns_partial); NewChildMonitor outside an action, AddEvent on a stopping pool, nested waits "
+                "with too few workers and ECAL addEvent inside loops/functions (new root monitor, not waited for) are outside the "
+                "property as modelled — see assumptions; rule selection/order per event are inputs (C01/C10)."),
 )
 
 
 C02_FILES = ("engine/monitor.go", "engine/taskqueue.go", "engine/processor.go", "pubsub/eventpump.go",
-             "interpreter/func_provider.go", "cmd/harness/c02.go")
+             "interpreter/func_provider.go", "cmd/harness/c02.go", "cmd/harness/c02run.go")
 
 
 def race_run(ctx, shards):
@@ -116,8 +135,35 @@ def race_run(ctx, shards):
         sub.cleanup()
 
 
+GEN = os.path.join(checklib.LEAN, "Ecal", "Gen", "C02.lean")
+
+
+def extract(ctx, binp):
+    """regenerate lean/Ecal/Gen/C02.lean from the tree under test"""
+    import subprocess
+    if os.path.exists(GEN):
+        os.remove(GEN)
+    p = subprocess.run([binp, "C02", "-tool", "facts", GEN], env=dict(checklib.GOENV, VERIF_REPO=checklib.REPO),
+                       stdout=subprocess.PIPE, stderr=subprocess.STDOUT, text=True, timeout=120)
+    if p.returncode != 0 or not os.path.exists(GEN):
+        raise checklib.CheckError("source fact extraction failed: " + p.stdout[-500:])
+
+
+def read_facts():
+    import re
+    src = open(GEN).read() if os.path.exists(GEN) else ""
+    out = {m.group(1): m.group(2) for m in re.finditer(r'\("(\w+)", (some true|some false|none)\)', src)}
+    m = re.search(r"def allErrorsCalls : List String := \[(.*)\]", src)
+    out["allErrorsCalls"] = m.group(1) if m else None
+    return out
+
+
 def run(ctx):
     thorough = ctx.tier == "thorough"
+    ctx.log("go: building harness against", checklib.REPO)
+    binp = checklib.go_build(ctx)
+    ctx.harness = binp
+    extract(ctx, binp)
     ctx.log("lean: building", SPEC["lean_modules"])
     lres = checklib.lean_check(ctx, SPEC["lean_modules"], leanchecker=thorough)
     cov = ctx.coverage
@@ -133,14 +179,50 @@ def run(ctx):
     proof_broken = bool(lres["failures"]) or lres["discharged"] != lres["obligations"]
     if proof_broken:
         ctx.log("LEAN FAILURES:", lres["failures"])
-
-    ctx.log("go: building harness against", checklib.REPO)
-    binp = checklib.go_build(ctx)
-    ctx.harness = binp
+    cov["source_facts"] = read_facts()
     shards = SPEC["shards"]
     cases, gores, stats, infos = checklib.run_cases(ctx, binp, "C02", shards=shards, budget_s=3000 if thorough else 600)
     crashes = sum(len(i["crashes"]) for i in infos.values())
     ctx.log(f"harness: {len(cases)} cases, {crashes} crashes")
+    # checklib re-runs a crashed case alone and forgives it when it then passes. A schedule dependent
+    # panic of the code under test (or a wait that never returned) is not forgiven here: the process
+    # death happened, whatever a second run does.
+    # full stderr of the harness processes (c02.stderr.<pid>): the message of a panic and the case it hit
+    import glob
+    deaths = []
+    for f in glob.glob(os.path.join(ctx.work, "c02.stderr.*")):
+        txt = open(f, errors="replace").read()
+        for m in re.finditer(r"(?m)^(panic: .*|fatal error: .*)$", txt):
+            k = txt.rfind("CASE ", 0, m.start())
+            payload = txt[k + 5:txt.find("\n", k)] if k >= 0 else ""
+            deaths.append((payload, m.group(1), " ".join(txt[m.start():m.start() + 1500].split())))
+    for payload, head, full in deaths:
+        ctx.log(f"panic in a harness process: {head[:200]}")
+        idx = next((i for i in cases if cases[i] == payload), None)
+        if idx is not None and "C02: " not in head:
+            gores[idx] = "CRASH " + full[:300]
+    kept, hangs = 0, []
+    for info in infos.values():
+        for c in info["crashes"]:
+            o = " ".join(c.get("output", "").split())
+            ctx.log(f"process death at case {c['idx']} (rc {c.get('rc')}): {o[:400]}")
+            forgiven = not gores.get(c["idx"], "").startswith("CRASH")
+            if "panic:" in o or "fatal error:" in o:
+                if forgiven:
+                    gores[c["idx"]] = "CRASH " + o[:300]
+                    kept += 1
+            elif "C02-HANG" in o:
+                hangs.append((c["idx"], o, forgiven))
+    # a wait that did not return: believed when it also hangs alone, or when it is not the only one of the run
+    # (one unreproduced stall of a whole process under load is recorded, not reported)
+    for idx, o, forgiven in hangs:
+        if forgiven and len(hangs) >= 2:
+            gores[idx] = "CRASH " + o[:300]
+            kept += 1
+        elif forgiven:
+            ctx.notes.append("one wait was declared stuck under load and returned when the case was run alone: " + o[:300])
+    if kept:
+        ctx.notes.append(f"{kept} process deaths were not reproduced when the case was run alone; they are still reported")
     if thorough:
         race_run(ctx, shards)
 
@@ -159,19 +241,66 @@ def run(ctx):
             nontrivial.add(cases[i].split(" ", 1)[1])
         if g != m:
             bad.append(i)
+    # tiny plans: exhaustive exploration of the plan on the transition system + coverage by the real runs
+    groups = {}
+    for i in sorted(cases):
+        hdr = cases[i].split(" ", 1)[0]
+        if ",T1" in hdr and i in traces:
+            k = re.sub(r",S\d+,D\d+", "", cases[i])
+            groups.setdefault(k, []).append(traces[i])
+    cover = {}
+    if groups:
+        keys = sorted(groups)
+        cres = checklib.run_driver(ctx, "C02", {n: keys[n] + " ~ " + " | ".join(groups[keys[n]]) for n in range(len(keys))},
+                                   args=["cover"], shards=shards)
+        agg = dict(reach=0, visited=0, outside=0, traces=0, rejected=0, distinct=0, trans=0, plans=0, not_same=0, stuck=0, bad=0)
+        worst = None
+        for n in range(len(keys)):
+            r = cres.get(n, ("", {}))[0]
+            f = dict(x.split("=") for x in r.split() if "=" in x)
+            if "reach" not in f:
+                continue
+            agg["plans"] += 1
+            for k2 in ("reach", "visited", "outside", "traces", "rejected", "distinct", "trans", "stuck", "bad"):
+                agg[k2] += int(f[k2])
+            agg["not_same"] += 1 - int(f["same"])
+            if int(f["outside"]) or int(f["stuck"]) or int(f["bad"]) or f["same"] != "1":
+                worst = worst or (keys[n], r)
+        cover = agg
+        ctx.log(f"tiny plans: {agg['plans']} plans explored exhaustively on the model ({agg['reach']} states, {agg['trans']} transitions); "
+                f"{agg['traces']} runs of the real code ({agg['distinct']} distinct schedules) visited {agg['visited']} of these states, {agg['outside']} outside")
+        cov["states"] = agg["reach"]
+        cov["exhaustive_part"] = ("every interleaving of the transition system for each explored cascade plan with <= 3 events, <= 2 workers "
+                                  "(model side); the real code's runs of the same plans are mapped into that state space")
+        cov["tiny_plans_explored"] = agg["plans"]
+        cov["tiny_model_transitions"] = agg["trans"]
+        cov["tiny_impl_runs"] = agg["traces"]
+        cov["schedules_explored_distinct"] = agg["distinct"]
+        cov["tiny_states_visited_by_impl"] = agg["visited"]
+        cov["tiny_state_coverage"] = round(agg["visited"] / max(1, agg["reach"]), 3)
+        if worst:
+            rp = checklib.write_replay(ctx, "explore", {"payload": worst[0], "readable": decode(worst[0])},
+                                       "every terminal state of the exhaustive exploration has the expected observables; the real runs stay inside the explored space",
+                                       worst[1], "lean/.lake/build/bin/driver C02 explore", tag="explore")
+            checklib.violation(ctx, rp, f"exploration: {worst[1][:160]}")
     # trace replay on the transition system
     tcases = {i: cases[i] + " ~ " + traces[i] for i in traces}
     replayed = checklib.run_driver(ctx, "C02", tcases, args=["replay"], shards=shards) if tcases else {}
-    ok_traces, events, rejects = 0, 0, []
+    ok_traces, events, rejects, legacy = 0, 0, [], 0
     for i in sorted(tcases):
         r = replayed.get(i, ("MISSING", {}))[0]
         if r.startswith("ok "):
-            ok_traces += len(traces[i].split(" ; "))
+            ok_traces += len(cases[i].split(" ")) - 1
             events += int(r.split()[1])
+            legacy += int(r.split("legacy=")[1]) if "legacy=" in r else 0
         else:
             rejects.append((i, r))
     ctx.log(f"traces: {ok_traces} cascade traces replayed ({events} events), {len(rejects)} rejected; "
             f"{len(bad)} result disagreements")
+    if legacy:
+        ctx.notes.append(f"{legacy} traces come from a tree without the call sites cascade.handler.registered / cascade.added "
+                         "(hooks/C02b.patch): the order 'finish-handler observer before pool.AddTask' was not observable there")
+    cov["traces_without_c02b_hooks"] = legacy
     if not traces:
         ctx.notes.append("no hook events were observed: the tree under test does not contain the call sites of hooks/C02.patch; "
                          "the correspondence ran on property-level observables only (no trace replay, no directed schedule)")
@@ -180,9 +309,12 @@ def run(ctx):
     cov["distinct_nontrivial"] = len(nontrivial)
     cov["rule"] = RULE
     cov["input_distribution"] = stats
+    cov["schedule_modes"] = {k[len("schedule mode "):]: v for k, v in stats.items() if k.startswith("schedule mode ")}
+    cov["directed_schedule_steps_effective"] = {k[len("sched: "):]: v for k, v in stats.items() if k.startswith("sched: ")}
     cov["disagreements"] = len(bad)
     cov["crashes"] = crashes
     cov["traces_validated_against_impl"] = ok_traces
+    cov["global_traces_replayed_on_shared_system"] = sum(1 for i in tcases if replayed.get(i, ("", {}))[0].startswith("ok "))
     cov["trace_events_replayed"] = events
     cov["trace_rejects"] = len(rejects)
     cov["exhaustive"] = False
@@ -203,11 +335,17 @@ def run(ctx):
                                    "every recorded step is an enabled event of the transition system with the recorded counter values",
                                    r, "./check C02 --replay <this file>", tag="trace")
         checklib.violation(ctx, rp, f"trace not accepted by the model: {r[:120]}")
-    if proof_broken and not ctx.violations:
-        rp = checklib.write_replay(ctx, "obligation", {"failures": lres["failures"], "theorems": lres["theorems"]},
-                                   "all property theorems check with allowed axioms", "see failures",
+    if proof_broken:
+        # a source fact / theorem does not hold for this tree: reported on its own (deterministic), the
+        # failing inputs found by the schedules above (if any) are the VIOLATION lines before this one
+        facts = read_facts()
+        broken = {k: v for k, v in facts.items() if v in ("some false", "none")}
+        rp = checklib.write_replay(ctx, "obligation", {"failures": lres["failures"], "source_facts_not_true": broken,
+                                                      "theorems": lres["theorems"]},
+                                   "all property theorems and source facts check with allowed axioms", "see failures",
                                    "cd lean && lake build Ecal.Props.C02", theorem="; ".join(lres["failures"])[:500])
-        checklib.violation(ctx, rp, no_input=True)
+        checklib.violation(ctx, rp, ("source facts not true: " + ",".join(sorted(broken))) if broken else "",
+                           no_input=not (bad or rejects))
     checklib.write_evidence(ctx)
     return 1 if ctx.violations else 0
 
